@@ -375,6 +375,9 @@ def par_cases(tier):
   for lo, hi in [([0, 0], [1, 1]), ([-1, -1], [0, 0]), ([-1, 0], [0, 1]), ([0, 0], [0, 0]), ([-1, -1], [E, 0]), ([-E, 0], [0, 1])]:
     for k in range(0, 4):
       out.append(('MFDeviceSet', 2, [('lo', lo), ('hi', hi), ('flows', k)]))
+  for lens in [[2], [2, 2], [2, 3], [3, 2], [3, 3, 3], [3, 2, 3], [1, 1, 2]]:
+    for i in ['set1', 'Set-2_x', 'bad id', '', '-x', 'a.b']:
+      out.append(('DeviceSet', 2, [('lens', lens), ('id', i)]))
   for k in range(1, 4):
     for r in [None, 1, 2, 3]:
       for ct in ['eq', 'ineq', 'x', '']:
@@ -405,6 +408,10 @@ def par_model(cls, n, settings):
     d = dict(settings)
     return ('MFDeviceSet_init_accepts %s %s %s' % (cq([F(e) for e in d['lo']]), cq([F(e) for e in d['hi']]),
                                                  cq(['f%d' % j for j in range(d['flows'])])), [])
+  if cls == 'DeviceSet':
+    import re
+    d = dict(settings)
+    return ('DeviceSet_init_accepts %s %s' % (cq(bool(re.match('(?i)^[a-z0-9][a-z0-9_-]*$', d['id']))), '[' + '; '.join('%d%%nat' % v for v in d['lens']) + ']'), [])
   if cls == 'TwoRatioMFDeviceSet':
     d = dict(settings)
     r = '(@None (list Q))' if d['ratios'] is None else '(Some %s)' % cq([F(1)] * d['ratios'])
@@ -440,6 +447,9 @@ def par_model(cls, n, settings):
 def par_build(cls, n, settings):
   import device_kit as dk
   kw = {}
+  if cls == 'DeviceSet':
+    d = dict(settings)
+    return dk.DeviceSet(d['id'], [dk.Device('k%d' % j, n_, [0, 1]) for j, n_ in enumerate(d['lens'])])
   if cls in ('TDevice', 'MFDeviceSet', 'TwoRatioMFDeviceSet'):
     d = dict(settings)
     if cls == 'TDevice':
@@ -470,7 +480,7 @@ def par_observe(cls, n, settings):
   except Exception:
     return 2, {}
   rep = {}
-  if cls not in ('TDevice', 'MFDeviceSet', 'TwoRatioMFDeviceSet'):
+  if cls not in ('TDevice', 'MFDeviceSet', 'TwoRatioMFDeviceSet', 'DeviceSet'):
     for p, _ in settings:
       rep[p] = getattr(d, p)
   return 0, rep
@@ -817,6 +827,9 @@ def oracle_par(cls, n, settings, code, rep):
   elif cls == 'TDevice':
     verdict = 0 <= d['sustainment'] <= 1 and d['efficiency'] != 0 and d['t_range'] >= 0 and len(d['t_external']) == n and \
         shape_ok(d['c']) and in_range(d['c'], lambda e: e >= 0)
+  elif cls == 'DeviceSet':
+    import re
+    verdict = len(set(d['lens'])) == 1 and bool(re.match('^[A-Za-z0-9][A-Za-z0-9_-]*$', d['id']))
   elif cls == 'MFDeviceSet':
     verdict = d['flows'] >= 1 and not (any(e < 0 for e in d['lo']) and any(e > 0 for e in d['hi']))
   elif cls == 'TwoRatioMFDeviceSet':
